@@ -637,6 +637,18 @@ func keyjsonRandOpts(r *Rng, idx int) cache.SearchOptions {
 	return o
 }
 
+// keyjsonUpperASCII upper-cases the ASCII letters only (the driver's normaliser knows the lower-case mapping of a fixed set of
+// non-ASCII code points; strings.ToUpper would introduce others, e.g. U+0178).
+func keyjsonUpperASCII(s string) string {
+	b := []byte(s)
+	for i, c := range b {
+		if c >= 'a' && c <= 'z' {
+			b[i] = c - 32
+		}
+	}
+	return string(b)
+}
+
 // queries: the base queries and respellings of the cache-layer domain, plus strings over the escape classes
 func keyjsonQuery(r *Rng, idx int) string {
 	switch r.Intn(4) {
@@ -830,7 +842,7 @@ func keyjsonGen(r *Rng, tier string, idx int, args map[string]string) []string {
 			add(c05Variant(r, b), base)
 		}
 		s := keyjsonString(r, idx)
-		for _, v := range []string{s, " " + s, s + "\t", strings.ToUpper(s), s + "x", "x" + s} {
+		for _, v := range []string{s, " " + s, s + "\t", keyjsonUpperASCII(s), s + "x", "x" + s} {
 			add(v, base)
 		}
 		ops = append(ops, "coerce "+Hx(s), "coerce "+Hx(keyjsonString(r, idx)))
